@@ -223,7 +223,12 @@ def validate_evidence(ev):
         jsonschema.validate(ev, schema)
         return None
     except ImportError:
-        return None
+        try:
+            p = subprocess.run(["python3-vt", "-c", "import json,sys,jsonschema; jsonschema.validate(json.load(sys.stdin), json.load(open('/root/.vp/EVIDENCE.schema.json')))"],
+                               input=json.dumps(ev), text=True, capture_output=True, timeout=60)
+            return None if p.returncode == 0 else p.stderr[-500:]
+        except Exception:
+            return None
     except Exception as e:
         return str(e)[:500]
 
